@@ -5,46 +5,60 @@ import json, os, vlib, sysval
 def project(events):
     keep = []
     for e in events:
-        if e["ev"] in ("init", "upload", "deliver", "stop", "drop", "return"):
+        if e["ev"] in ("init", "upload", "deliver", "stop", "drop", "return", "req", "runaway"):   # runaway: no reading explains a poller that never stops asking
             keep.append(e)
         elif e["ev"] in ("list", "get"):
             keep.append({"ev": "req", "fault": bool(e.get("fault", False))})
     return keep
 
 
-def validate_session(c, trace, how):
-    """Full-log validation first; a rejection at a REQUEST event is implementation-shaped (drift) and
-    the session is re-validated on its property-level projection with the requests inferred by TLC."""
-    n = sum(1 for _ in open(trace))
-    r = vlib.tlc("Trace_Poll", "Trace_Poll", run_dir=c.run_dir, env={"TRACE": trace}, coverage=False, workers=1, xss="1g", deque=True, timeout=1200)
-    vlib.require_model_ok(r, "Trace_Poll")
+def tlc_trace(c, cfg, trace):
+    r = vlib.tlc("Trace_Poll", cfg, run_dir=c.run_dir, env={"TRACE": trace}, coverage=False, workers=1, xss="1g", deque=True, timeout=1800)
+    vlib.require_model_ok(r, cfg)
     c.states += r.distinct
     c.transitions += r.generated
     mism = r.tuples("MISMATCH")
+    if not mism and not r.tuples("TRACE-CONSUMED"):
+        raise vlib.ToolError("%s gave no verdict on %s" % (cfg, trace))
+    return mism
+
+
+def property_reading(c, events, proj, how, drift_sig, drift_detail):
+    """The two weaker readings of a recording: `projected` (requests inferred by TLC, budgets 5/10 as in
+    the code) and `property` (budget free from the third failed attempt on -- exactly what C18 states).
+    Rejection by the weaker readings only is drift; rejection by the property reading is the verdict."""
+    vlib.write_ndjson(proj, project(events))
+    pe = [json.loads(x) for x in open(proj)]
+    m2 = tlc_trace(c, "Trace_Poll_projected", proj)
+    c.mismatches.append({"t": "mismatch", "kind": "drift", "sig": drift_sig, "detail": drift_detail, "case": None})
+    if not m2:
+        return
+    m3 = tlc_trace(c, "Trace_Poll_property", proj)
+    if not m3:
+        c.mismatches.append({"t": "mismatch", "kind": "drift", "sig": "C18/budget_shape", "case": None,
+                             "detail": "explained only with a retry budget other than 5/10 (event %d %s)" % (m2[0][2], pe[m2[0][2] - 1])})
+        return
+    sig, idx = m3[0][1], m3[0][2]
+    ev = pe[idx - 1] if 0 < idx <= len(pe) else None
+    window = [e for e in pe[max(0, idx - 8):idx]]
+    c.mismatches.append({"t": "mismatch", "kind": "violation", "sig": sig, "detail": "Poll.tla cannot explain event %d %s under any reading" % (idx, ev),
+                         "case": {"trace": proj, "event_index": idx, "event": ev, "preceding": window}, "how": how})
+
+
+def validate_session(c, trace, how):
+    """Full-log validation first; a rejection there may be implementation-shaped (drift), so the
+    session is re-validated on its property-level projection under the weaker readings."""
+    if trace.endswith(".proj"):
+        events = [json.loads(x) for x in open(trace)]
+        return property_reading(c, events, trace, how, "C18/replayed_projection", "replay of a projected recording")
+    mism = tlc_trace(c, "Trace_Poll", trace)
     if not mism:
-        if not r.tuples("TRACE-CONSUMED"):
-            raise vlib.ToolError("Trace_Poll gave no verdict on " + trace)
         return
     sig, idx = mism[0][1], mism[0][2]
     events = [json.loads(x) for x in open(trace)]
     ev = events[idx - 1] if 0 < idx <= len(events) else None
-    if sig.startswith("C18/request/"):
-        c.mismatches.append({"t": "mismatch", "kind": "drift", "sig": sig, "detail": "request log differs from Poll.tla at event %d: %s" % (idx, ev), "case": None})
-        proj = trace + ".proj"
-        vlib.write_ndjson(proj, project(events))
-        r2 = vlib.tlc("Trace_Poll", "Trace_Poll_projected", run_dir=c.run_dir, env={"TRACE": proj}, coverage=False, workers=1, xss="1g", deque=True, timeout=1800)
-        vlib.require_model_ok(r2, "Trace_Poll_projected")
-        c.states += r2.distinct
-        c.transitions += r2.generated
-        m2 = r2.tuples("MISMATCH")
-        if not m2:
-            return
-        pe = [json.loads(x) for x in open(proj)]
-        sig, idx, ev, trace = m2[0][1], m2[0][2], pe[m2[0][2] - 1], proj
-    window = [json.loads(x) for x in open(trace)][max(0, idx - 8):idx]
-    window = [e for e in window if e.get("ev") != "probe"]
-    c.mismatches.append({"t": "mismatch", "kind": "violation", "sig": sig, "detail": "Poll.tla cannot explain event %d %s" % (idx, ev),
-                         "case": {"trace": trace, "event_index": idx, "event": ev, "preceding": window}, "how": how})
+    property_reading(c, events, trace + ".proj", how, sig if sig.startswith("C18/request/") else "C18/full_log/" + sig[4:],
+                     "full log differs from Poll.tla at event %d: %s" % (idx, ev))
 
 
 def run(tier):
@@ -76,6 +90,21 @@ def run(tier):
     vlib.write_ndjson(scripts, g.replays)
     vlib.log("  [G] Gen_Poll: %d terminated behaviours (scripts) from TLC's simulator" % len(g.replays))
     c.replay("poll", scripts, timeout=3000)
+    # a scripted session that disagrees with its script is judged on what was observed (property reading), not on the script
+    pend = [m for m in c.mismatches if m.get("kind") == "pending"]
+    c.mismatches = [m for m in c.mismatches if m.get("kind") != "pending"]
+    for m in pend[:12]:
+        before = len([x for x in c.mismatches if x.get("kind") == "violation"])
+        tr = m["case"]["trace"]
+        events = [json.loads(x) for x in open(tr)]
+        property_reading(c, events, tr, {"module": "poll", "mode": "script", "script": m["case"]}, m["sig"] + "/script_shape", m["detail"])
+        for x in c.mismatches[::-1]:
+            if x.get("kind") == "violation" and len([y for y in c.mismatches if y.get("kind") == "violation"]) > before and "script" not in x["case"]:
+                x["case"]["script"] = m["case"]
+                x["detail"] += "; " + m["detail"]
+                break
+    if len(pend) > 12:
+        c.mismatches.append({"t": "mismatch", "kind": "drift", "sig": "C18/script/many_disagreements", "detail": "%d scripted sessions disagree with Poll.tla's request structure; 12 judged" % len(pend), "case": None})
     idx, n = c.record("poll", out_name="sessions.idx", timeout=3000)
     sessions = vlib.read_ndjson(idx)
     for s in sessions:
